@@ -480,6 +480,10 @@ fn noisy_build_inner(kind: u8, geom: Geom, kvs: &[Kv], mask: u8) -> Result<(Vec<
             for (i, (k, v)) in kvs.iter().enumerate() {
                 e2s(b.insert(k, *v))?;
                 accepted.push((k.clone(), *v));
+                // harmless questions, asked 0..3 times depending on the position
+                for _ in 0..(i % 4) {
+                    std::hint::black_box((b.bytes_written(), b.get_ref().len()));
+                }
                 for (rk, rv) in rejected_after(kvs, i, mask) {
                     if noise(|| b.insert(&rk, rv).is_ok())? {
                         note(&mut accepted, &mut stray, "raw insert", &rk, rv, k);
@@ -503,6 +507,9 @@ fn noisy_build_inner(kind: u8, geom: Geom, kvs: &[Kv], mask: u8) -> Result<(Vec<
             for (i, (k, v)) in kvs.iter().enumerate() {
                 e2s(b.insert(k, *v))?;
                 accepted.push((k.clone(), *v));
+                for _ in 0..((i + 1) % 4) {
+                    std::hint::black_box((b.bytes_written(), b.get_ref().len()));
+                }
                 for (rk, rv) in rejected_after(kvs, i, mask) {
                     if noise(|| b.insert(&rk, rv).is_ok())? {
                         note(&mut accepted, &mut stray, "MapBuilder::insert", &rk, rv, k);
@@ -523,6 +530,9 @@ fn noisy_build_inner(kind: u8, geom: Geom, kvs: &[Kv], mask: u8) -> Result<(Vec<
             for (i, (k, _)) in kvs.iter().enumerate() {
                 e2s(b.insert(k))?;
                 accepted.push((k.clone(), 0));
+                for _ in 0..((i + 2) % 4) {
+                    std::hint::black_box((b.bytes_written(), b.get_ref().len()));
+                }
                 // repeats of the last key are no-ops for sets, in every entry point
                 e2s(b.insert(k))?;
                 e2s(b.extend_iter(std::iter::once(k)))?;
